@@ -99,6 +99,8 @@ type SimTask struct {
 	Ports        []uint64
 	Cpus, Mem    float64
 	terminalSent bool
+	// RunningAckAt: when the core acknowledged this task's TASK_RUNNING (-1: not yet)
+	RunningAckAt time.Duration
 }
 
 type ReceivedCommand struct {
@@ -301,6 +303,9 @@ func (c *caller) Call(ctx context.Context, call *scheduler.Call) (mesos.Response
 		if u := w.updates[string(a.GetUUID())]; u != nil {
 			u.acked = true
 			delete(w.updates, string(a.GetUUID()))
+			if t := w.Tasks[a.GetTaskID().Value]; t != nil && u.status.GetState() == mesos.TASK_RUNNING && t.RunningAckAt < 0 {
+				t.RunningAckAt = w.S.Now()
+			}
 		}
 		lg.Tasks = []string{a.GetTaskID().Value}
 		w.mu.Unlock()
@@ -509,7 +514,7 @@ func (w *World) accept(call *scheduler.Call, lg *CallLog) {
 			continue
 		}
 		for _, ti := range op.GetLaunch().GetTaskInfos() {
-			t := &SimTask{ID: ti.TaskID.Value, Name: ti.Name, Info: ti, FwID: w.FwID, State: "STANDBY", Mesos: mesos.TASK_STAGING, LaunchSeq: w.seq + 1}
+			t := &SimTask{ID: ti.TaskID.Value, Name: ti.Name, Info: ti, FwID: w.FwID, State: "STANDBY", Mesos: mesos.TASK_STAGING, LaunchSeq: w.seq + 1, RunningAckAt: -1}
 			_ = json.Unmarshal(ti.Data, &t.Cmd)
 			for _, l := range ti.GetLabels().GetLabels() {
 				if l.Key == "environmentId" && l.Value != nil {
